@@ -87,6 +87,43 @@ func chanString(w []string, syn string) string {
 	return s + "/"
 }
 
+// ch renders a model channel as the real channel string, every level repeated k times ('#' stays single: it is only
+// valid as the last level).
+func (w *world) ch(wd []string, syn string) string {
+	if w.k <= 1 {
+		return chanString(wd, syn)
+	}
+	var out []string
+	for _, x := range wd {
+		n := w.k
+		if x == "#" {
+			n = 1
+		}
+		for i := 0; i < n; i++ {
+			out = append(out, x)
+		}
+	}
+	return chanString(out, syn)
+}
+
+// words is the inverse of ch.
+func (w *world) words(ch string) []string {
+	ws := words(ch)
+	if w.k <= 1 {
+		return ws
+	}
+	out := []string{}
+	for i := 0; i < len(ws); {
+		out = append(out, ws[i])
+		if ws[i] == "#" {
+			i++
+		} else {
+			i += w.k
+		}
+	}
+	return out
+}
+
 func words(ch string) []string {
 	if i := strings.IndexByte(ch, '?'); i >= 0 {
 		ch = ch[:i]
@@ -131,6 +168,7 @@ type world struct {
 	b       *bk.Broker // the first broker (the only one unless the replay runs a cluster)
 	f       *fabric
 	nb      int
+	k       int // depth inflation: every channel word is repeated k times (0 or 1 = as is); semantics-preserving for literals and '+'
 	keys    map[string]string
 	clients map[string]*bk.Client
 	names   []string
@@ -156,11 +194,11 @@ func (w *world) toModel(p bk.Pkt) map[string]any {
 	case "connack", "suback", "err":
 		return map[string]any{"t": p.T, "code": p.Code}
 	case "pub":
-		return map[string]any{"t": "pub", "ch": words(p.Ch), "p": p.P}
+		return map[string]any{"t": "pub", "ch": w.words(p.Ch), "p": p.P}
 	case "pres":
-		return map[string]any{"t": "pres", "ev": p.Ev, "ch": words(p.Ch), "who": w.byIDName(p.Who[0]), "user": p.Users[0]}
+		return map[string]any{"t": "pres", "ev": p.Ev, "ch": w.words(p.Ch), "who": w.byIDName(p.Who[0]), "user": p.Users[0]}
 	case "resp":
-		m := map[string]any{"t": "resp", "api": p.Api, "code": p.Code, "ev": p.Ev, "name": p.Name, "ch": words(p.Ch)}
+		m := map[string]any{"t": "resp", "api": p.Api, "code": p.Code, "ev": p.Ev, "name": p.Name, "ch": w.words(p.Ch)}
 		who := [][]string{}
 		for i := range p.Who {
 			who = append(who, []string{w.byIDName(p.Who[i]), p.Users[i]})
@@ -226,7 +264,7 @@ func (w *world) collect(requester, isSub string) (map[string]*outRec, error) {
 				continue
 			}
 			if p.T == "pub" && n == isSub {
-				replay = append(replay, []any{words(p.Ch), p.P})
+				replay = append(replay, []any{w.words(p.Ch), p.P})
 				continue
 			}
 			flush()
@@ -306,6 +344,59 @@ func (w *world) hostile(c *bk.Client, cls string, rng *rand.Rand) (bool, error) 
 			o = append(o, fmt.Sprintf("o%d=%d", i, i))
 		}
 		pub(k+"/hostile/?"+strings.Join(o, "&"), "x")
+	case "sub-deep", "sub-plus-deep", "sub-mixed-deep":
+		// a well-formed channel with very many levels (literal, all '+', alternating): subscribed and unsubscribed again
+		lv := map[string]string{"sub-deep": "d/", "sub-plus-deep": "+/", "sub-mixed-deep": "d/+/"}[cls]
+		n := map[string]int{"sub-deep": 64, "sub-plus-deep": 40, "sub-mixed-deep": 24}[cls]
+		topic := []byte(k + "/deep/" + strings.Repeat(lv, n))
+		w.msgID++
+		c.Send(&mqtt.Subscribe{MessageID: w.msgID, Subscriptions: []mqtt.TopicQOSTuple{{Topic: topic}}})
+		w.msgID++
+		c.Send(&mqtt.Unsubscribe{MessageID: w.msgID, Topics: []mqtt.TopicQOSTuple{{Topic: topic}}})
+	case "sub-deep-drop", "sub-plus-deep-drop":
+		// the same channels, held when the socket closes (Close unsubscribes them)
+		lv, n := "d/", 64
+		if cls == "sub-plus-deep-drop" {
+			lv, n = "+/", 40
+		}
+		w.msgID++
+		c.Send(&mqtt.Subscribe{MessageID: w.msgID, Subscriptions: []mqtt.TopicQOSTuple{{Topic: []byte(k + "/deep/" + strings.Repeat(lv, n))}}})
+		if _, err := c.Barrier(stepTimeout); err != nil {
+			return false, fmt.Errorf("hostile class %s: no answer to the subscription (hang)", cls)
+		}
+		c.C.Close()
+		if !c.WaitServerClosed(stepTimeout) {
+			return false, fmt.Errorf("hostile class %s: the broker did not finish closing the connection (hang)", cls)
+		}
+		return true, nil
+	case "sub-many-topics":
+		// one SUBSCRIBE packet with 400 topics, then one UNSUBSCRIBE packet with the same 400
+		var subs, unsubs []mqtt.TopicQOSTuple
+		for i := 0; i < 400; i++ {
+			subs = append(subs, mqtt.TopicQOSTuple{Topic: []byte(fmt.Sprintf("%s/many/t%d/", k, i))})
+			unsubs = append(unsubs, mqtt.TopicQOSTuple{Topic: []byte(fmt.Sprintf("%s/many/t%d/", k, i))})
+		}
+		w.msgID++
+		c.Send(&mqtt.Subscribe{MessageID: w.msgID, Subscriptions: subs})
+		w.msgID++
+		c.Send(&mqtt.Unsubscribe{MessageID: w.msgID, Topics: unsubs})
+	case "sub-long-level":
+		topic := []byte(k + "/" + strings.Repeat("L", 60000) + "/")
+		w.msgID++
+		c.Send(&mqtt.Subscribe{MessageID: w.msgID, Subscriptions: []mqtt.TopicQOSTuple{{Topic: topic}}})
+		w.msgID++
+		c.Send(&mqtt.Unsubscribe{MessageID: w.msgID, Topics: []mqtt.TopicQOSTuple{{Topic: topic}}})
+	case "pub-deep":
+		pub(k+"/deep/"+strings.Repeat("d/", 200), "x")
+	case "presence-plus-deep":
+		// watch a channel of 40 '+' levels, subscribe to it (a notification is published for it), and undo both
+		ch := "deep/" + strings.Repeat("+/", 40)
+		pub("emitter/presence/", fmt.Sprintf(`{"key":%q,"channel":%q,"status":true,"changes":true}`, k, ch))
+		w.msgID++
+		c.Send(&mqtt.Subscribe{MessageID: w.msgID, Subscriptions: []mqtt.TopicQOSTuple{{Topic: []byte(k + "/" + ch)}}})
+		w.msgID++
+		c.Send(&mqtt.Unsubscribe{MessageID: w.msgID, Topics: []mqtt.TopicQOSTuple{{Topic: []byte(k + "/" + ch)}}})
+		pub("emitter/presence/", fmt.Sprintf(`{"key":%q,"channel":%q,"status":false,"changes":false}`, k, ch))
 	case "ping-flood":
 		pings = 1500
 		for i := 0; i < pings; i++ {
@@ -419,26 +510,26 @@ func ReplayN(nb int, surveyed bool, mode string, licVer int, storage string, wal
 			json.Unmarshal(a.Will, &wl)
 			if wl.On {
 				pkt.WillFlag, pkt.WillRetainFlag = true, wl.Retain
-				pkt.WillTopic = []byte(w.key(wl.K) + "/" + chanString(wl.W, wl.Syn))
+				pkt.WillTopic = []byte(w.key(wl.K) + "/" + w.ch(wl.W, wl.Syn))
 				pkt.WillMessage = []byte(wl.P)
 			}
 			c.Send(pkt)
 		case "sub":
 			isSub = a.C
-			c.Send(&mqtt.Subscribe{MessageID: w.msgID, Subscriptions: []mqtt.TopicQOSTuple{{Topic: []byte(w.key(a.K) + "/" + chanString(a.W, a.Syn) + options(&a))}}})
+			c.Send(&mqtt.Subscribe{MessageID: w.msgID, Subscriptions: []mqtt.TopicQOSTuple{{Topic: []byte(w.key(a.K) + "/" + w.ch(a.W, a.Syn) + options(&a))}}})
 		case "unsub":
-			c.Send(&mqtt.Unsubscribe{MessageID: w.msgID, Topics: []mqtt.TopicQOSTuple{{Topic: []byte(w.key(a.K) + "/" + chanString(a.W, a.Syn))}}})
+			c.Send(&mqtt.Unsubscribe{MessageID: w.msgID, Topics: []mqtt.TopicQOSTuple{{Topic: []byte(w.key(a.K) + "/" + w.ch(a.W, a.Syn))}}})
 		case "pub":
 			topic := a.Via
 			if a.Via == "" {
-				topic = w.key(a.K) + "/" + chanString(a.W, a.Syn) + options(&a)
+				topic = w.key(a.K) + "/" + w.ch(a.W, a.Syn) + options(&a)
 			}
 			c.Send(&mqtt.Publish{Header: mqtt.Header{QOS: uint8(a.Qos), Retain: a.Retain}, MessageID: w.msgID, Topic: []byte(topic), Payload: []byte(a.P)})
 		case "link":
-			req, _ := json.Marshal(map[string]any{"name": a.Name, "key": w.key(a.K), "channel": chanString(a.W, a.Syn) + options(&a), "subscribe": a.Sub})
+			req, _ := json.Marshal(map[string]any{"name": a.Name, "key": w.key(a.K), "channel": w.ch(a.W, a.Syn) + options(&a), "subscribe": a.Sub})
 			c.Send(&mqtt.Publish{Header: mqtt.Header{QOS: 1}, MessageID: w.msgID, Topic: []byte("emitter/link/"), Payload: req})
 		case "presence":
-			m := map[string]any{"key": w.key(a.K), "channel": chanString(a.W, a.Syn), "status": a.Status}
+			m := map[string]any{"key": w.key(a.K), "channel": w.ch(a.W, a.Syn), "status": a.Status}
 			if a.Chg == "on" {
 				m["changes"] = true
 			} else if a.Chg == "off" {
@@ -504,6 +595,10 @@ func ReplayN(nb int, surveyed bool, mode string, licVer int, storage string, wal
 		}
 		out, err := w.collect(a.C, isSub)
 		if err != nil {
+			if a.N == "hostile" {
+				// after a hostile request some connection does not get a PINGRESP within the step timeout
+				return nil, fmt.Errorf("step %s: %v: the broker stopped serving (hang)", raw, err)
+			}
 			return nil, fmt.Errorf("step %s: %v", raw, err)
 		}
 		ev["out"] = out
@@ -583,6 +678,7 @@ type Plan struct {
 	Storage    string
 	EdgeOps    int // MaxOps of the reduced-alphabet exhaustive export (thorough; quick uses one less)
 	QuickOps   int // MaxOps of the full-alphabet invariant check (quick; thorough uses one more)
+	Hammer     int // concurrent sessions per matcher (quick; thorough 6x)
 }
 
 // RunFamily is the common body of C02 / C07 / C08 / C18.
@@ -731,10 +827,19 @@ func RunFamily(c *core.Ctx, p Plan) {
 		rej := c.ValidateTraces(ts, core.ValidateOpts{Module: "Session_Trace", Cfg: traceCfg(mode), ChunkSize: 2500})
 		c.ReportRejections(rej, p.What+" ("+mode+" matcher)")
 	}
+	// concurrent clients: requests of different connections really overlap (random mixes, hand-overs of one branch
+	// between connections, a connection ending in the middle), the state they leave is audited sequentially
+	if p.Hammer > 0 {
+		n, rounds := p.Hammer, 100
+		if !c.Quick() {
+			n, rounds = 6*p.Hammer, 250
+		}
+		HammerStage(c, p.What, n, rounds, 1)
+	}
 	c.Set("distinct_nontrivial", nontrivial)
 	c.Set("rule", p.Rule)
 	c.Assume = append(c.Assume,
-		"requests of different clients are issued one at a time by the driver (the quantifier is request sequences, not schedules)",
+		"in the replayed behaviours requests of different clients are issued one at a time; overlapping requests are exercised by the concurrent-clients stage, whose oracle is the state every interleaving must end in",
 		"keys are all-covering (`#/`) keys of the broker's contract; targets/expiry/contracts are C03's subject",
 		"a PINGREQ/PINGRESP round trip on every connection and a sentinel through the presence queue delimit what was received during a step")
 	c.Finish()
@@ -782,7 +887,7 @@ func countPkts(t *core.Trace, typ string) int {
 
 // RunC02 is the C02 check.
 func RunC02(c *core.Ctx) {
-	RunFamily(c, Plan{Fam: "pubsub", EdgeOps: 4, QuickOps: 4, What: "clients did not receive exactly what their acknowledged subscriptions entitle them to",
+	RunFamily(c, Plan{Fam: "pubsub", EdgeOps: 4, QuickOps: 4, Hammer: 4, What: "clients did not receive exactly what their acknowledged subscriptions entitle them to",
 		Rule: "TLC-simulated request sequences (3 clients; collision families a/b-b/a, a/a-b/b, x/x/y-y; wildcards; links; me=0; failing requests) replayed on a real broker; non-trivial = at least one message delivered and at least one error reply or undelivered publish in the same behaviour; distinct by TLC seed/behaviour",
 		Nontrivial: func(t *core.Trace) bool {
 			return countPkts(t, "pub") > 0 && (countPkts(t, "err") > 0 || countPkts(t, "puback") > countPkts(t, "pub"))
@@ -800,7 +905,7 @@ func RunC07(c *core.Ctx) {
 
 // RunC08 is the C08 check.
 func RunC08(c *core.Ctx) {
-	RunFamily(c, Plan{Fam: "ending", EdgeOps: 4, QuickOps: 3, What: "a connection that ended left subscriptions behind, or its last will / presence departure was wrong",
+	RunFamily(c, Plan{Fam: "ending", EdgeOps: 4, QuickOps: 3, Hammer: 4, What: "a connection that ended left subscriptions behind, or its last will / presence departure was wrong",
 		Rule: "TLC-simulated sessions (ordinary, link-created and presence-change subscriptions; wills with good, read-only, undecryptable keys, wildcard and malformed will topics) ended by DISCONNECT, abrupt close, a cut inside a packet at a seeded byte offset, or a malformed packet; non-trivial = at least one ending of a connection that held a subscription or a will",
 		Nontrivial: func(t *core.Trace) bool {
 			for _, ev := range eventsOf(t) {
@@ -814,7 +919,27 @@ func RunC08(c *core.Ctx) {
 
 // RunC18 is the C18 check.
 func RunC18(c *core.Ctx) {
-	RunFamily(c, Plan{Fam: "presence", EdgeOps: 8, QuickOps: 5, What: "presence status or change notifications differ from the subscriptions actually held",
+	RunFamily(c, Plan{Fam: "presence", EdgeOps: 8, QuickOps: 5, Hammer: 3, What: "presence status or change notifications differ from the subscriptions actually held",
 		Rule:       "TLC-simulated histories of subscribe/unsubscribe/disconnect and presence requests (status and/or changes, exact and parent channels); non-trivial = at least one notification received by a watcher and one non-empty status reply",
 		Nontrivial: func(t *core.Trace) bool { return countPkts(t, "pres") > 0 }})
+}
+
+// SequentialStage replays TLC-simulated sessions of one family on a real broker and validates them (used by checks
+// whose own subject is a part of the broker - the index, the store - to cover the request path in front of it).
+func SequentialStage(c *core.Ctx, what, fam string, num, depth int) {
+	rng := rand.New(rand.NewSource(c.Seed + 99))
+	for _, mode := range []string{"emitter", "mqtt"} {
+		var ts []*core.Trace
+		for i, w := range Simulate(c, mode, fam, num, depth, rng) {
+			lic := 1 + (i+int(c.Seed))%3
+			t, err := Replay(mode, lic, "inmemory", w, fmt.Sprintf("seq-%s-%s-%d-lic%d", fam, mode, i, lic), rand.New(rand.NewSource(c.Seed+int64(i))))
+			if err != nil {
+				core.Fatalf("session behaviour could not be replayed: %v", err)
+			}
+			c.Add("evaluations", int64(len(t.Events)-1))
+			ts = append(ts, t)
+		}
+		rej := c.ValidateTraces(ts, core.ValidateOpts{Module: "Session_Trace", Cfg: traceCfg(mode), ChunkSize: 2500})
+		c.ReportRejections(rej, what+" ("+mode+" matcher)")
+	}
 }
